@@ -522,8 +522,12 @@ func classOfOps(ops string) string {
 	return "mutated:" + ops
 }
 
-// specialDocs: deep nesting and YAML/HJSON features that expand or alias.
-func specialDocs() []struct{ class, doc string } {
+var specialDocsCache = buildSpecialDocs()
+
+func specialDocs() []struct{ class, doc string } { return specialDocsCache }
+
+// buildSpecialDocs: deep nesting and YAML/HJSON features that expand or alias.
+func buildSpecialDocs() []struct{ class, doc string } {
 	rep := strings.Repeat
 	laughs := "a: &a [x,x,x,x,x,x,x,x]\n"
 	prev := "a"
